@@ -1384,5 +1384,5 @@ def replay(trace, prop):
     return _run(prop, trace=trace)
 
 
-def extra_coverage(results, prop):
+def extra_coverage(total, prop):
     return {"representable_domain": DOMAIN}
